@@ -4,11 +4,11 @@ from checks_common import three
 CHECK = {
     # two modes = two processes per variant, so that a sanitizer halt in the futex part cannot mask the
     # task / future / cancellable part (and vice versa)
-    "runs": three("c13_coroutine", [], scales=(0.35, 0.5, 1.0), mode="mix")
-            + three("c13_coroutine", [], scales=(0.3, 0.5, 1.0), mode="futex")
+    "runs": three("c13_coroutine", [], scales=(0.25, 0.5, 1.0), mode="mix")
+            + three("c13_coroutine", [], scales=(0.25, 0.5, 1.0), mode="futex")
             # Cancellable whose inner task inherits its executor through the proxy coroutine (own process: on a
             # tree with defect e this dies with a null executor dereference)
-            + three("c13_coroutine", [], scales=(0.35, 0.5, 1.0), mode="mixinherit"),
+            + three("c13_coroutine", [], scales=(0.25, 0.5, 1.0), mode="mixinherit"),
     "parallel": 3,
     "design_ref": "DESIGN.md §5 C13, §6",
     "technique": "coroutine workloads on thread-pool executors with online monitors (in-frame flag, suspend/resume "
